@@ -202,7 +202,11 @@ func (e *Engine) runInner(st *State, pre func(*State)) (again bool) {
 		if r := recover(); r != nil {
 			u, ok := r.(unsupported)
 			if !ok {
-				panic(r)
+				if os.Getenv("SYMGO_PANIC") != "" {
+					panic(r)
+				}
+				// an operation the executor does not model for these operand kinds
+				u = unsupported{fmt.Sprintf("executor: %v", r)}
 			}
 			if e.tolerantRecover(st, u.msg) {
 				again = true
@@ -1024,7 +1028,11 @@ func (e *Engine) binop(st *State, op token.Token, a, b Value, ta, tb, tr types.T
 		as, bs := e.toSMTString(st, a), e.toSMTString(st, b)
 		switch op {
 		case token.ADD:
-			return e.name(Concat(as, bs))
+			r := e.name(Concat(as, bs))
+			if o, ok := e.ipStrOrigin[as.S]; ok && o.suffix == "" && bs.K && !r.K {
+				e.ipStrOrigin[r.S] = ipOrigin{b: o.b, suffix: bs.Str}
+			}
+			return r
 		case token.LSS:
 			return Lt(as, bs)
 		case token.LEQ:
